@@ -356,6 +356,9 @@ class Models:
         R("Entry::or_insert", m_entry_or_insert)
         R(["BTreeMap::values", "HashMap::values", "BTreeMap::iter", "HashMap::iter",
            "&BTreeMap as IntoIterator::into_iter"], m_map_iter)
+        R(["BTreeMap::keys", "HashMap::keys", "BTreeMap::into_keys", "HashMap::into_keys", "BTreeMap::into_values", "HashMap::into_values"],
+          m_map_keys_iter)
+        R(["Vec as Extend::extend", "Vec::extend"], m_vec_extend_iter)
         R("Values as Iterator::any", m_iter_any)
         R(["BTreeMap::len", "HashMap::len"], m_map_len)
         R(["BTreeMap::is_empty"], lambda ex, st, fr, c, a, d, r: VBool(m_map_len(ex, st, fr, c, a, d, r).t == 0))
@@ -365,7 +368,7 @@ class Models:
         R(["RandomState as Default::default"], lambda ex, st, fr, c, a, d, r: VOpaque("hasher"))
         R(["Values as Iterator::copied"], lambda ex, st, fr, c, a, d, r: a[0])
         R(["Copied as Iterator::sum"], m_iter_sum)
-        self.prefix_table.append((re.compile(r" as Iterator::(map|filter|copied|cloned|enumerate)$"), m_iter_adapt))
+        self.prefix_table.append((re.compile(r" as Iterator::(map|filter|copied|cloned|enumerate|inspect)$"), m_iter_adapt))
         self.prefix_table.append((re.compile(r" as Iterator::(sum|count|collect|all|fold|max|min|last)$"), m_iter_consume))
         R(["Iter as ExactSizeIterator::len"], m_iter_len)
         R(["HashMap::clear", "BTreeMap::clear"], m_map_clear)
@@ -1284,6 +1287,34 @@ def m_map_iter(ex, st, fr, c, a, d, r):
     return VIter(items, "map")
 
 
+def m_map_keys_iter(ex, st, fr, c, a, d, r):
+    """keys() / into_keys() / into_values(): the universe elements that are present, in key order"""
+    m = the_map(st, a[0])
+    cc = strip_generics(c)
+    by_ref = cc.endswith("::keys")
+    items = []
+    for u in map_domain(ex, m):
+        if cc.endswith("into_values"):
+            item = shape_select(m, u)
+        else:
+            ksym = VSym(u, m.ksort) if m.ksort in ("K", "H") else VInt(u, "u64")
+            item = VRef(st.alloc(ksym)) if by_ref else ksym
+        items.append((z3.Select(m.present, u), item))
+    return VIter(items, "map")
+
+
+def m_vec_extend_iter(ex, st, fr, c, a, d, r):
+    """Vec::extend(iterator): append every item the iterator yields"""
+    src = deref_all(st, a[1])
+    if isinstance(src, VVec) or isinstance(src, VOpaque):
+        return m_vec_extend(ex, st, fr, c, a, d, r)
+
+    def fin(s, items):
+        seq(s, a[0]).elems.extend(deref_all(s, x).clone() if isinstance(x, VRef) and False else x for x in items)
+        return ex.finish_call(s, d, r, VUnit())
+    return iter_collect(ex, st, a[1], fin)
+
+
 def in_range(rg, k):
     """rg = SymRange[lo, hi, lo_kind, hi_kind]; kinds: 0 included, 1 excluded, 2 unbounded"""
     lo, hi = rg.fields[0].t, rg.fields[1].t
@@ -1534,6 +1565,8 @@ def iter_collect(ex, st, itv, cont):
                 def after(ex2, s3, rv, i=i, acc=acc):
                     if kind == "map":
                         return step(s3, i + 1, acc + [rv])
+                    if kind == "inspect":
+                        return step(s3, i + 1, acc + [items[i]])
                     outs = []  # filter
                     for cnd, keep in ((rv.t, True), (z3.Not(rv.t), False)):
                         cs = z3.simplify(cnd)
